@@ -80,14 +80,35 @@ func genProgram(r *core.Rand) *elfref.Desc {
 		n = r.Range(6, 24)
 		o.GapPct, o.JumpPct = r.Range(25, 50), 0
 	}
+	if r.Chance(1, 5) {
+		// memory-heavy straight-line code through one pointer: stores of
+		// different widths land on and inside each other
+		o.MemPct, o.JumpPct, o.PtrRegs = r.Range(50, 85), r.Intn(3), []int{5}
+	}
 	prog := rvref.RandomProgram(r, base, n, o)
+	if r.Chance(1, 4) {
+		// runs of identical instructions (same text, same bytes)
+		p := r.Range(10, 50)
+		for i := 1; i < len(prog); i++ {
+			k := rvref.Kind(prog[i-1].Name)
+			if r.Intn(100) < p && k != "B" && k != "J" && prog[i-1].Name != "jalr" && rvref.Kind(prog[i].Name) != "B" && rvref.Kind(prog[i].Name) != "J" && prog[i].Name != "jalr" {
+				prog[i].Word, prog[i].Name, prog[i].Text = prog[i-1].Word, prog[i-1].Name, prog[i-1].Text
+			}
+		}
+	}
 	entry := prog[r.Intn(len(prog))].Addr
 	var data []byte
 	if r.Chance(2, 3) {
 		data = r.Bytes(r.Range(1, 48))
 	}
 	dataAddr := uint64(0x20000 + r.Intn(64))
-	return imggen.Exec(prog, entry, dataAddr, data, r.Intn(3)*r.Intn(24))
+	bss := r.Intn(3) * r.Intn(24)
+	segs := []imggen.DataSeg{{Addr: dataAddr, Data: data, Bss: bss}}
+	if len(data) > 0 && r.Chance(1, 3) {
+		// a second image block a few bytes behind the first
+		segs = append(segs, imggen.DataSeg{Addr: dataAddr + uint64(len(data)+bss+r.Range(1, 7)), Data: r.Bytes(r.Range(1, 24))})
+	}
+	return imggen.ExecSegs(prog, entry, segs)
 }
 
 type policy struct {
@@ -101,7 +122,12 @@ type policy struct {
 	// swarm knobs
 	pResize, pStream, pGarbage int
 	quitting                  bool
-	lastBlockMove             bool
+	// walker: this simulated user walks through the program - entry point,
+	// emulate, then step after step, pointing the pointer registers into the
+	// data of the image (few other commands, no stream faults)
+	walker        bool
+	walkStage     int
+	lastBlockMove bool
 	afterEnd                  int
 }
 
@@ -533,6 +559,9 @@ func (p *policy) choose(o *Obs) Ev {
 	switch o.Kind {
 	case pValue:
 		// never end the stream inside a value prompt (DESIGN 6.5)
+		if p.walker && (o.Reg == "x5" || o.Reg == "x6") && r.Chance(5, 6) {
+			return emit(Ev{K: "line", S: spellNumber(r, big.NewInt(int64(0x20000+r.Intn(72))), false)})
+		}
 		if r.Chance(1, 6) {
 			if s, ok := p.pointerToTheEdge(o); ok {
 				return emit(Ev{K: "line", S: s})
@@ -569,6 +598,11 @@ func (p *policy) choose(o *Obs) Ev {
 		}
 	}
 	switch {
+	case p.walker && p.tr.mode == "dis" && p.walkStage < 2:
+		line = []string{"entry", "emulate"}[p.walkStage]
+		p.walkStage++
+	case p.walker && p.tr.mode == "emu" && r.Chance(9, 10):
+		line = pick(r, "step", "s", "f")
 	case r.Intn(100) < p.pGarbage:
 		line = p.garbage()
 	case r.Chance(1, 25):
@@ -625,6 +659,10 @@ func (e *Engine) Generate(r *core.Rand, prop string, tier string) core.Trace {
 	p.pGarbage = r.Range(0, 12)
 	if prop == "C22" {
 		p.pGarbage = r.Range(5, 45)
+	}
+	if r.Chance(1, 5) {
+		p.walker = true
+		p.budget, p.pGarbage, p.pStream = r.Range(20, 80), r.Intn(3), 0
 	}
 	s := &session{ld: ld}
 	p.s = s
